@@ -6,6 +6,7 @@ import (
 	"os"
 	"sort"
 	"strings"
+	"unsafe"
 
 	"github.com/fufuok/cache/internal/vshim"
 	"github.com/fufuok/cache/internal/xsync"
@@ -26,6 +27,8 @@ type mapAPI interface {
 	Clear()
 	Size() int
 	VerifDump(key string, want bool) (int, int64, int64, int64, string, uint64)
+	VerifAddrs() (table, resizing, mu unsafe.Pointer)
+	VerifGrowthAddrs() (g, s unsafe.Pointer)
 }
 
 func newMapInst(variant string, hint int, growOnly bool, whitebox bool) mapAPI {
